@@ -818,7 +818,9 @@ def Array(
             try:
                 if issubclass(cls.element_type, BitArrayType):
                     chunk_size = cls.element_type.size * 8
-                    _len = len(values) // chunk_size
+                    _chunks = len(values) // chunk_size
+                    # fixed-length arrays truncate over-long input like any other array
+                    _len = min(_chunks, _len) if isinstance(_length, int) else _chunks
                     values = [
                         values[i : i + chunk_size]
                         for i in range(0, len(values), chunk_size)
